@@ -543,7 +543,13 @@ func (database *ChainDatabase) appendConfirm(block *types.Block, confirms []type
 func (database *ChainDatabase) setConfirm(hash common.Hash, confirms []types.SignData) (*types.Block, error) {
 	item := database.UnConfirmBlocks[hash]
 	if (item != nil) && (item.Block != nil) {
-		database.appendConfirm(item.Block, confirms)
+		// The block object is shared with readers which hold no lock (the fork head, blocks handed out by
+		// GetBlockByHash/GetUnConfirmByHeight, event subscribers). Never change it in place: replace it by a copy
+		newBlock := *item.Block
+		newBlock.Confirms = make([]types.SignData, len(item.Block.Confirms), len(item.Block.Confirms)+len(confirms))
+		copy(newBlock.Confirms, item.Block.Confirms)
+		database.appendConfirm(&newBlock, confirms)
+		item.Block = &newBlock
 		return item.Block, nil
 	} else {
 		block, err := database.getBlock4DB(hash)
